@@ -110,10 +110,10 @@ SerNames(N, top) ==
            r \in {q \in w.recs : q.at = "start"}}
 SerOk(N, top) == \A s \in SerNames(N, top) : s.r.ok
 
-\* declarations written on element i (gen_edge_start + render_output: bindings of the XML namespace are not written)
+\* declarations written on element i (gen_edge_start + render_output: the implicit binding of the xml prefix is not written)
 Emitted(N, top, i) ==
     LET extra == IF i = top THEN SelectSeq(L2InScopeSeq(N, i), LAMBDA b : ~HasPrefix(DeclSeq(N, i), b[1])) ELSE <<>>
-    IN SelectSeq(extra \o DeclSeq(N, i), LAMBDA b : b[2] # XmlNs)
+    IN SelectSeq(extra \o DeclSeq(N, i), LAMBDA b : ~(b[1] = "xml" /\ b[2] = XmlNs))
 \* what a namespace-aware reader of the emitted text has in scope at element i
 RECURSIVE EmB(_, _, _, _)
 EmB(N, top, i, d) ==
@@ -272,7 +272,7 @@ L2DedupRefines(N) ==
     \A x \in ElemsAndDocs(N) :
         LET r == L2Dedup(N, x)  P == r.n  top == Root(N, x) IN
         /\ r.passes < 1000
-        /\ OnlyRemovesDecls(N, P, x) /\ DedupKeepsUsable(N, P, x)
+        /\ OnlyRemovesDecls(N, P, x) /\ DedupKeepsUsable(N, P, x) /\ DedupKeepsSelfContained(N, P, x)
         /\ L2DedupPass(P, x) = {}
         /\ SerOk(N, top) => SerOk(P, top)
         /\ \A s \in SerNames(P, top) : s.r.ok /\ (\E s0 \in SerNames(N, top) : s0.id = s.id /\ s0.r.ok /\ Faithful(N, top, s0))
